@@ -58,3 +58,10 @@ func VerifC06_PoolHandlesDisjoint() { c04PoolHandles() }
 //verif:unroll 12
 //verif:noreplay compares heap identities of handles
 func VerifC03_PoolHandlesDisjoint() { c04PoolHandles() }
+
+// VerifC07_PoolHandlesDisjoint: the same harness under C07 (an iteration is reported by its own outcome only while
+// no other live worker marks failures on, or resets, the same T).
+//
+//verif:unroll 12
+//verif:noreplay compares heap identities of handles
+func VerifC07_PoolHandlesDisjoint() { c04PoolHandles() }
